@@ -15,7 +15,7 @@ LEVEL = "proof"
 
 MANIFEST = {
     "technique": "Coq proof (template-shape expansion, Python block-rule parser lemma, big-step semantics vs table interpreter) + translation validation of the generated module + execution against the interpreter",
-    "text": ("Theorems C08_sem / C08_sem_triggered / C08_init / C08_block_structure: for every well-formed table, every event sequence and every guard oracle "
+    "text": ("Theorems C08_sem / C08_sem_triggered / C08_init / C08_block_structure / C08_name_domain: for every well-formed table, every event sequence and every guard oracle "
              "(indexed by call count) the lines smgen produces from the shipped template's transition blocks (shape regenerated from the "
              "template into Gen/PyTmpl.v on every run) parse by Python's block rule, and the parsed program makes exactly the callbacks and "
              "passes through exactly the states of the independent table interpreter (Spec/TableInterp.v). Tie: gen_py T equals the "
@@ -33,8 +33,10 @@ MANIFEST = {
              "NoTransition). Modelled, not verified: CPython executing if/return/method calls as the big-step semantics says; the construction of the event object in "
              "Trigger<Event> (that Trigger calls process(event) synchronously exactly once when StateMachineThread=0 is now part of the theorem, "
              "C08_sem_triggered, from the IR of Gen/PySync.v; threaded delivery is C11); isinstance on distinct event classes = name equality. "
-             "The three behaviour-deciding constructor lines (def, entry callback and assignment of <<<STATE_0>>>; selected from the shipped file like translator/pytmpl.py does: PyRender.py_init16) go through the engine too (C08_sem_engine_full, C08_init_reads; filterInitialState is part of the C16 grammar), compared with the real text on every case. The process region and the constructor lines are run through the engine model as templates of their own (the whole shipped file is outside the C16 grammar: SIGNATURE, TTT_BOOST_SML, user tags); that the real engine produces the same text inside the whole file is observed on every case, not proved. Names that collide with identifiers the template itself uses (Enum, EventStartup, NoTransition, ...) are outside the proof's name "
-             "abstraction; they are probed on the real code."),
+             "The three behaviour-deciding constructor lines (def, entry callback and assignment of <<<STATE_0>>>; selected from the shipped file like translator/pytmpl.py does: PyRender.py_init16) go through the engine too (C08_sem_engine_full, C08_init_reads; filterInitialState is part of the C16 grammar), compared with the real text on every case. The process region and the constructor lines are run through the engine model as templates of their own (the whole shipped file is outside the C16 grammar: SIGNATURE, TTT_BOOST_SML, user tags); that the real engine produces the same text inside the whole file is observed on every case, not proved. "
+             "Names: the theorems carry the hypothesis py_names_ok (no table name is one of the template module's bare names); that list is computed from the template "
+             "by translator/pytmpl.py on every run (which also requires the controller's star import to be the FIRST import), pinned by C08_name_domain, used by the case "
+             "generator, and every reserved name is probed on the real code as an event with a parameter."),
 }
 RULE = ("random well-formed tables biased to several rows per (state,event) mixing guarded rows and unguarded fallbacks in both orders, "
         "repeated rows, self loops, target-only states, rows without target, spellings None/none/''/NONE/nOnE; random event parameter "
@@ -44,7 +46,8 @@ RULE = ("random well-formed tables biased to several rows per (state,event) mixi
 ASSUMPTIONS = ["wf_table: non-empty table; start state and event are UpperCamelCase alphanumeric identifiers, next/action/guard are such identifiers or an "
                "absent spelling ('' or any capitalisation of 'none'); True/False excluded; states/events/actions/guards pairwise disjoint",
                "non-threaded delivery (user tag StateMachineThread=0); the threaded queue is property C11",
-               "identifiers do not collide with names fixed by the template (Enum, EventStartup, NoTransition, On<State>Entry/Exit of another state, process<State>)"]
+               "py_names_ok: no state/event/action/guard is one of the template module's bare names (Gen/PyTmpl.v py_reserved_names: Enum, EventStartup, auto, queue, threading, unique) "
+               "nor <Name>StateId / <Name>StateMachine; NoTransition, On<State>Entry/Exit of another state, process<State> likewise"]
 TRUSTED = ["Coq 8.16.1 kernel (coqc; coqchk in the thorough tier)", "axioms: none",
            "translator/pytmpl.py (regex classification of the template's __init__ tail and State Processing section, fail closed)",
            "extraction: ExtrOcamlBasic + ExtrOcamlNativeString; ocaml/cmds_sm.ml",
@@ -349,8 +352,22 @@ def parser_case(ctx, rng, table):
         ctx.tie_broken("correspondence PySM.parse_indent vs CPython ast.parse (perturbed indentation)", {"lines": lines, "model": mp, "cpython": cp})
 
 
+def reserved_names():
+    """py_reserved_names of Gen/PyTmpl.v (what translator/pytmpl.py computed from the template on this run)."""
+    try:
+        text = open(os.path.join(VERIF, "coq", "theories", "Gen", "PyTmpl.v")).read()
+    except OSError:
+        return []
+    m = re.search(r"py_reserved_names : list string := \[(.*?)\]\.", text)
+    return ["".join(chr(int(x)) for x in b.split(";") if x) for b in re.findall(r"bs \[([0-9;]*)\]", m.group(1))] if m else []
+
+
 def gen_case(rng):
-    table = smlib.random_table(rng)
+    res = set(reserved_names())
+    while True:
+        table = smlib.random_table(rng)
+        if not (set(sum(smlib.names(table), [])) & res):      # inside the theorem's name domain (py_names_ok)
+            break
     spec = smlib.random_iface_spec(rng, table, "py", {"StateMachineThread": "0"}, extra_events=rng.choice([0, 0, 1]))
     evnames = smlib.names(table)[1] + [nm for nm, _m in spec["structs"] if nm not in smlib.names(table)[1]]
     evs = []
@@ -377,6 +394,26 @@ def run(ctx):
         ctx.count("known_probe")
         if fail:
             ctx.violation(fail, {"table": table, "iface": nothread, "events": evs, "bits": [True] * 4, "finding_key": key})
+    # every reserved bare name of the template (Gen/PyTmpl.v) that a table could use, probed as an event with one parameter:
+    # outside the theorem's domain by py_names_ok; what happens on the real code is reported (known for Enum, EventStartup)
+    probe = list(reserved_names())
+    try:    # also when the translator refused (stale Gen): the names the template binds NOW, read without refusing
+        from translator import pytmpl
+        with open(os.path.join(kj.REPO, pytmpl.SOURCE)) as fh:
+            probe += [x for x in pytmpl.scan_names(fh.read())[0] if x not in probe]
+    except Exception:  # noqa
+        pass
+    for nm in probe:
+        if not re.fullmatch(r"[A-Z][A-Za-z0-9]*", nm):
+            continue
+        table = [["S", nm, "T", "OnA", "None"]]
+        spec = {"structs": [[nm, [["m0", "int", None]]]], "usertags": {"StateMachineThread": "0"}}
+        fail, _src = observe(ctx, table, spec, [[nm, [7]]], [])
+        ctx.case(("reserved-name-probe", nm))
+        ctx.count("reserved_name_probe")
+        if fail:
+            ctx.violation("event named %s (a bare name of the template's module): %s" % (nm, fail),
+                          {"table": table, "iface": spec, "events": [[nm, [7]]], "bits": [], "finding_key": "py-event-named-" + nm})
     n = ctx.budget(500, 7000)
     for i in range(n):
         table, spec, evs, bits = gen_case(ctx.rng)
